@@ -267,6 +267,8 @@ def main():
             k = match_known(pid, res["harness"], v, known)
             case = {"harness": res["harness"], "inputs": v["inputs"], "choices": v.get("choices") or [],
                     "params": res.get("params", {}), "alloc_limit": res.get("alloc_limit", 0)}
+            if any(k.startswith("rand.") for k in v["inputs"]):
+                case["repeat"] = 200000  # directed repetition until the draws line up
             hsh = hashlib.sha256(json.dumps([case, v["label"], v["site"]], sort_keys=True).encode()).hexdigest()[:12]
             rpath = os.path.join(ROOT, "replays", pid, f"{res['harness']}-{hsh}.json")
             json.dump({"property": pid, "harness": res["harness"], "label": v["label"], "kind": v["kind"], "site": v["site"],
